@@ -219,6 +219,68 @@ META = {
               'follows memory addresses / hash seed',
         strengthened='generator class "replica" (same sub-architecture instantiated k times; spec nodes may carry a '
                      'repeated display label) in C18 and in the history checks'),
+    'C01-b': dict(
+        breaks='C01', file='adsg_core/optimization/graph_processor.py (_get_des_vars)',
+        change='the mask of infeasible existence patterns is rebound per connection choice instead of accumulated',
+        needs='two or more connection choices, an infeasible existence pattern on a non-last one that the '
+              'selection-level feasibility check does not see; complete encoder: valid vectors raise "Infeasible graph '
+              'specified!"',
+        strengthened=None),
+    'C04-b': dict(
+        breaks='C04', file='adsg_core/optimization/graph_processor.py (get_graph, per-choice graph cache key)',
+        change='the cache key of the graph after a connection choice no longer contains the earlier choices\' values',
+        needs='two connection choices active together; rows that differ only in the earlier one decode to the same '
+              'architecture on a processor that has served another row (counts and vectors stay right)',
+        strengthened=None),
+    'C05-b': dict(
+        breaks='C05', file='adsg_core/optimization/hierarchy/complete.py (_find_correct_opt_idx)',
+        change='same aliasing of the cached combination set as C03-b (found independently)',
+        needs='see C03-b; shows as history-dependent decodes / wrong decodes under a fix',
+        strengthened=None),
+    'C09-b': dict(
+        breaks='C09', file='adsg_core/optimization/assign_enc/matrix.py (MatrixGenSettings.get_cache_key)',
+        change='the cache key is memoised on the (mutable) settings object',
+        needs='one settings object used by a generator, edited in place (exclusions removed, parallel limit, '
+              'repeatability) and used for a new generator: enumeration and count come from the cache files of the '
+              'earlier state while validate_matrix is computed fresh',
+        strengthened='C09 gained the in-place edit pass (prime, edit the object, new generator, compare with the brute '
+                     'force of the edited settings)'),
+    'C12-b': dict(
+        breaks='C12', file='adsg_core/optimization/assign_enc/matrix.py (iter_n_sources_targets)',
+        change='same change as C09-a (found independently for the cache property)',
+        needs='>= 2 existence patterns, cold matrix cache, a scenario-filtered public query first, then selection',
+        strengthened='C12 gained the filtered-first scenario on its own cache directory (filtered iter_matrices, then '
+                     'selection through the caches, then the cached aggregate matrix vs brute force)'),
+    'C14-b': dict(
+        breaks='C14', file='adsg_core/optimization/hierarchy/fast.py (_get_selection_choice_is_forced)',
+        change='the indices of linked choices are no longer sorted before all but the first are marked forced',
+        needs='fast encoder; LINKED choices on different hierarchy levels where the deeper one sorts first by id: the '
+              'permanent choice becomes forced to option 0 and all other linked options are unreachable',
+        strengthened='KF-CON-LINKED-FAST used to swallow it (same symptom, same flags): the matcher now requires that '
+                     'every missing architecture has a PARTIALLY active link group (where.linked_partial_only); the '
+                     'structured constraint placements of C13 are also fed to C14/C01/C03'),
+    'C15-b': dict(
+        breaks='C15', file='adsg_core/optimization/graph_processor.py (_update_comb_fixed_mask)',
+        change='same index mix-up as C04-a (found independently)',
+        needs='a forced selection choice ordered before the fixed one',
+        strengthened=None),
+    'C17-b': dict(
+        breaks='C17', file='adsg_core/optimization/graph_processor.py (_get_metrics)',
+        change='the "declared NONE" guard is applied to the objective role only',
+        needs='a metric declared MetricType.NONE that has a direction AND a reference value: it becomes a constraint',
+        strengthened=None),
+    'C19-b': dict(
+        breaks='C19', file='adsg_core/optimization/assign_enc/matrix.py (iter_n_sources_targets)',
+        change='the on-disk tuple cache is written in a `finally`, i.e. also when the generator is interrupted',
+        needs='a time-limited count_all_matrices that times out on a cold cache: the partial tuple list is stored as '
+              'if complete and every later call under-counts',
+        strengthened='C19 gained the library workload class (count_all_matrices under a tiny limit on a cold cache, '
+                     'then the same queries compared with an undisturbed run)'),
+    'C20-b': dict(
+        breaks='C20', file='adsg_core/graph/sup/dsg.py (SupExistenceMapping.resolve)',
+        change='existing source nodes are collected by str(node), looked up by str_context()',
+        needs='an existence mapping keyed on a design-variable or metric node of the source graph',
+        strengthened='C20 sources now include design-variable / metric nodes and existence mappings are keyed on them'),
 }
 
 
